@@ -499,9 +499,26 @@ def c16(tier, seed, rest):
         n_used = rnd.randint(1, 5)
         used = sts[:n_used]
         arms_m, ons = [], []
+        # a state may be listed in more than one arm (the builder's `.on` documents that the most recent
+        # call for a state wins): now and then re-use already listed states in a later arm
+        pending = used[:]
+        if len(pending) >= 2 and rnd.random() < 0.35:
+            extra = rnd.sample(pending, rnd.randint(1, min(2, len(pending))))
+            pos = rnd.randint(1, len(pending))
+            pending = pending[:pos] + extra + pending[pos:]
+            feats.append("state-listed-in-two-arms")
+        used = pending
         while used:
             take = 1 if (rnd.random() < 0.6 or len(used) < 2) else rnd.randint(2, min(3, len(used)))
             group, used = used[:take], used[take:]
+            # a state cannot be listed twice within one arm pattern in a meaningful way; split duplicates off
+            seen_in_group = []
+            for g in group:
+                if g in seen_in_group:
+                    used = [g] + used
+                else:
+                    seen_in_group.append(g)
+            group = seen_in_group
             args, twin, merged, exact, sig = gen_timeline_invocation(rnd, exact_only=True, allow_default_kf=True)
             if not args.strip():
                 args, twin = "1s", "V::timeline().duration_seconds(1.0f32).build()"
